@@ -365,7 +365,40 @@ func (c *Ctx) rulesC06x(a *coreAnchors) {
 				fld.Name()+" is trimmed by a prefix ("+render(sl.Low)+" elements): the dropped bindings are not necessarily the matched ones, a still-open waiter is lost and never closes")
 		}
 	}
-	c.ok("C06.rm", fmt.Sprintf("%d prefix re-slices of binding indexes", n), token.NoPos, "scan of every store to the slice-typed binding indexes")
+	// slices.Delete(index, lo, hi) on a binding index removes exactly one matched position (hi == lo+1)
+	for _, f := range c.Funcs {
+		if topFunc(f).Pkg == nil || relPkg(topFunc(f).Pkg.Pkg.Path()) != pm {
+			continue
+		}
+		for _, d := range inPlaceDeletes(f) {
+			if calleeName(&d.Call) != "Delete" || len(d.Call.Args) != 3 {
+				continue
+			}
+			fld := loadOfField(d.Call.Args[0])
+			if fld == nil || !ownsWaiter(fld.Type(), 0) {
+				continue
+			}
+			if nt := namedOf(fieldOwner(d.Call.Args[0])); nt == nil || nt.Obj().Name() != "Subscriptions" {
+				continue
+			}
+			n++
+			lo, hi := d.Call.Args[1], d.Call.Args[2]
+			one := false
+			if bo, ok := hi.(*ssa.BinOp); ok && bo.Op == token.ADD {
+				if k, ok := constInt(bo.Y); ok && k == 1 && sameValue(bo.X, lo) {
+					one = true
+				}
+			}
+			if kl, ok := constInt(lo); ok {
+				if kh, ok := constInt(hi); ok && kh == kl+1 {
+					one = true
+				}
+			}
+			c.check(one, "C06.rm", fmt.Sprintf("%s deletes single positions from %s", funcKey(f), fld.Name()), d.Pos(),
+				fld.Name()+" loses a position range ["+render(lo)+":"+render(hi)+"): the dropped bindings are not necessarily the matched ones (the index is in subscription order), a still-open waiter is lost or a matured one kept")
+		}
+	}
+	c.ok("C06.rm", fmt.Sprintf("%d prefix re-slices / deletions of binding indexes", n), token.NoPos, "scan of every store to the slice-typed binding indexes")
 	// paired ctx indexes
 	pairs := map[string]string{"when": "whenCtx", "whenTime": "whenTimeCtx", "whenArgs": "whenArgsCtx", "whenQuery": "whenQueryCtx"}
 	regs := map[string]string{"When": "when", "WhenNot": "when", "WhenTime": "whenTime", "WhenArgs": "whenArgs", "WhenQuery": "whenQuery"}
@@ -396,6 +429,24 @@ func (c *Ctx) rulesC06x(a *coreAnchors) {
 		c.check(wp && wc, "C06.pair", "Subscriptions."+gc+" removes the binding from "+prim+" and "+pairs[prim], f.Pos(), fmt.Sprintf("primary written: %v, ctx index written: %v", wp, wc))
 	}
 	c.floor("C06.pair", 8)
+	// a binding enters its ctx index exactly once (the gc helpers are not idempotent)
+	c.rule("C06.once", "a registration records the binding in its *Ctx index exactly once: the map update is not inside a loop (a binding listed twice is collected twice when the context ends; the second collection hits the single-entry shortcut of the gc helper and drops another subscriber's binding, whose channel then never closes)")
+	for fn, prim := range regs {
+		f := c.fn(pm + ":Subscriptions." + fn)
+		cf := fieldByName(pairs[prim])
+		if f == nil || cf == nil {
+			continue
+		}
+		for i, w := range writesOfFieldIn(f, cf) {
+			if w.Kind != "mapupdate" {
+				continue
+			}
+			b := w.Instr.Block()
+			c.check(!blockReach(b)[b], "C06.once", fmt.Sprintf("Subscriptions.%s: %s insert%s is outside any loop", fn, pairs[prim], nth(i)), w.Instr.Pos(),
+				"the binding is appended to "+pairs[prim]+" once per loop iteration")
+		}
+	}
+	c.floor("C06.once", 5)
 }
 
 // rulesC06reuse: a registration hands out the channel of an existing binding
@@ -470,4 +521,17 @@ func (c *Ctx) rulesC06reuse() {
 	if n < 4 {
 		c.undecided(fmt.Sprintf("C06.reuse: only %d channel-reuse returns found (When, WhenNot, WhenTime, WhenArgs expected)", n))
 	}
+}
+
+// fieldOwner: the type of the struct a loaded field belongs to.
+func fieldOwner(v ssa.Value) types.Type {
+	if u, ok := v.(*ssa.UnOp); ok {
+		if fa, ok := u.X.(*ssa.FieldAddr); ok {
+			return fa.X.Type()
+		}
+	}
+	if f, ok := v.(*ssa.Field); ok {
+		return f.X.Type()
+	}
+	return nil
 }
